@@ -40,6 +40,18 @@ const NESTED: &str = "<entry><string>shape</string><shape><pins><entry><string>L
 /// character data as a document may hold it: escaped, and now and then with a comment or a processing instruction
 /// in it — neither is character data, so the text of the element is still `s`
 fn cdata(s: &str, r: &mut Prng) -> String {
+    if r.chance(1, 12) && !s.contains('\r') && !s.contains("]]>") {
+        // a CDATA section around all or part of the text (how people paste test data by hand): still character data
+        let cuts: Vec<usize> = (0..=s.len()).filter(|i| s.is_char_boundary(*i)).collect();
+        let (mut a, mut b) = (cuts[r.below(cuts.len())], cuts[r.below(cuts.len())]);
+        if r.chance(1, 2) {
+            (a, b) = (0, s.len());
+        }
+        if a > b {
+            std::mem::swap(&mut a, &mut b);
+        }
+        return format!("{}<![CDATA[{}]]>{}", esc(&s[..a]), &s[a..b], esc(&s[b..]));
+    }
     if !r.chance(1, 12) {
         return esc(s);
     }
